@@ -14,9 +14,10 @@ from typing import Any
 from .. import core, escommon, decomp_common as dc, decomp_front as dfr
 from ..gen.programs import Cfg
 
-MODULES = ["ESV.Props.C01"]
+MODULES = ["ESV.Props.C01"] + dfr.MODULES
 THEOREMS = ["ESV.Beh.check_sound", "ESV.Beh.validate_sound", "ESV.C01.routine_validated", "ESV.C01.machines_validated",
             "ESV.C01.equivalent_halting_trace", "ESV.C01.tables_tied", "ESV.Beh.Equivalent.trans", "ESV.Beh.Equivalent.symm"]
+THEOREMS += dfr.THEOREMS
 
 
 # ---- named shape predicates of INPUT routine sets (only used to match known findings) --------------------------------
